@@ -1,6 +1,7 @@
 import ChiDriver.Common
 import ChiDriver.C01
 import ChiModel.LogLikS1
+import ChiModel.SensSwitch
 open Wire ChiModel
 namespace ChiDriver.C03
 
@@ -31,5 +32,32 @@ def place : Op
     some [.list (r.1.map (fun x => match x with | some v => .flt v | none => .none)), ofFlts r.2]
   | _ => none
 
-def ops : List (String × Op) := [("C03.s1", s1), ("C03.place", place)]
+/-- one operation of a history: `["fix", [[index, fixed?], …]]`, `["call"]`, `["s1"]` -/
+def parseOp (v : Val) : Option Switch.Op := do
+  match v with
+  | .list [.str "fix", upd] =>
+    let ps ← (← upd.list?).mapM (fun p => match p with
+      | .list [.int i, .bool b] => if i ≥ 0 then some (i.toNat, b) else none
+      | _ => none)
+    some (.fix ps)
+  | .list [.str "call"] => some .call
+  | .list [.str "s1"] => some .s1
+  | _ => none
+
+def seenVal : Switch.Seen → Val
+  | .fixed => .str "fixed"
+  | .plain a => .list [.bool a]
+  | .sens cols a => .list [ofNats cols, .bool a]
+  | .raised => errVal "raised"
+
+/-- `C03.switch n pkpd regimen ops` → one observation per operation: `"fixed"`, `[attached]` for a plain
+    evaluation, `[columns, attached]` for an evaluation with sensitivities -/
+def switch : Op
+  | [.int n, .bool pkpd, .bool regimen, opsV] => do
+    if n < 0 then none
+    let ops ← (← opsV.list?).mapM parseOp
+    some [.list ((Switch.run (Switch.init n.toNat pkpd regimen) ops).map seenVal)]
+  | _ => none
+
+def ops : List (String × Op) := [("C03.s1", s1), ("C03.place", place), ("C03.switch", switch)]
 end ChiDriver.C03
